@@ -372,11 +372,17 @@ class RemoteWorker(Worker, metaclass=RemoteWorkerMeta):
         logger.debug('Data socket at: {}', self._socket.getsockname())
 
         logger.debug('Spinning up a frontend thread')
+        self._startup_error = None
         self._child = threading.Thread(target=self._run_frontend, name=f'{self.name} (remote front)')
         self._child.start()
         self._dead = False
         logger.debug('Waiting for the frontend thread to notify that everything is up and running...')
         self._startup_sync.wait()
+        if self._startup_error is not None:
+            self._child.join()
+            self._dead = True
+            self._socket.close()
+            raise RuntimeError('Could not create a remote worker - handshake with the server failed') from self._startup_error
         logger.details('Child created successfully, continuing with the main thread')
 
     # Parent-side, helper thread managing network communication and fetching results from the child
@@ -387,22 +393,29 @@ class RemoteWorker(Worker, metaclass=RemoteWorkerMeta):
         if self._set_names:
             setthreadtitle(f'{self.name} (remote front)', self)
 
-        logger.debug('Sending self to the server to initialize backend...')
-        send_msg(self._socket, (self._context, True), comment='data: header')
-        send_msg(self._socket, self, comment='data: initial remote worker') # this will spawn a backend at the remote side, via __getstate__(remote=True) and __setstate__
+        try:
+            logger.debug('Sending self to the server to initialize backend...')
+            send_msg(self._socket, (self._context, True), comment='data: header')
+            send_msg(self._socket, self, comment='data: initial remote worker') # this will spawn a backend at the remote side, via __getstate__(remote=True) and __setstate__
 
-        logger.debug('Waiting for control socket address from the child...')
-        control_addr = recv_msg(self._socket, comment='control socket addr')
+            logger.debug('Waiting for control socket address from the child...')
+            control_addr = recv_msg(self._socket, comment='control socket addr')
 
-        logger.debug('Control socket address from the child: {}, connecting...', control_addr)
-        self._ctrl_sock = socket.socket(socket.AF_INET, socket.SOCK_STREAM)
-        set_keepalive(self._ctrl_sock, True)
-        self._ctrl_sock.connect(control_addr)
-        logger.debug('Control sockets connected: {} <==> {}', self._ctrl_sock.getsockname(), control_addr)
+            logger.debug('Control socket address from the child: {}, connecting...', control_addr)
+            self._ctrl_sock = socket.socket(socket.AF_INET, socket.SOCK_STREAM)
+            set_keepalive(self._ctrl_sock, True)
+            self._ctrl_sock.connect(control_addr)
+            logger.debug('Control sockets connected: {} <==> {}', self._ctrl_sock.getsockname(), control_addr)
 
-        self._host, self._pid, self._tid, self._ident = recv_msg(self._ctrl_sock, comment='ctrl: runtime info')
-        logger.debug('Received info package from the backend, signalling the main thread that everything is fine')
-        self._startup_sync.set()
+            self._host, self._pid, self._tid, self._ident = recv_msg(self._ctrl_sock, comment='ctrl: runtime info')
+            logger.debug('Received info package from the backend, signalling the main thread that everything is fine')
+        except Exception as e:
+            # the main thread is blocked in _start until we tell it how the handshake went
+            logger.debug('Handshake with the server failed: {}', e)
+            self._startup_error = e
+            return
+        finally:
+            self._startup_sync.set()
         self._fetch_results()
         logger.debug('Closing down frontend-side socket')
         self._socket.close()
